@@ -74,7 +74,7 @@ def gen_trees(ctx, n):
     out = []
     for i in range(n):
         lang = 'ja' if i % 4 == 3 else 'en'
-        kw = dict(awkward=rng.choice([0.0, 0.3, 0.8]))
+        kw = dict(awkward=rng.choice([0.0, 0.3, 0.8]), unispace=rng.choice([0.0, 0.0, 0.25]))
         if i % 2 == 0:
             t = T.licensed_tree(rng, lang, rng.randint(0, 4), kw)
         else:
@@ -100,7 +100,7 @@ def run(ctx):
     ctx.rule = ('trees: grammar-licensed derivations (real en/ja rule functions over the observed rule instances, real unary '
                 'tables) and arbitrary well-formed trees (random shape / categories / labels / head flags) with 1..7 leaves; '
                 'tokens from a pool that over-represents brackets, angle brackets, quotes, slashes, &, non-ASCII, -LRB-, '
-                'x)[conj], (<L; attributes present/absent. Each tree is printed (auto, conll), the line is read back by '
+                'x)[conj], (<L, words with non-ASCII white space (U+00A0, U+3000, U+2003); attributes present/absent. Each tree is printed (auto, conll), the line is read back by '
                 'read_auto from a file, printed again. non-trivial = distinct printed lines of trees with >= 2 leaves')
     trees = gen_trees(ctx, ctx.budget(1500, 12000))
     cases = []
